@@ -124,6 +124,11 @@ impl Indexable for ast::Include {
             return None;
         };
 
+        // the declarations of a file are indexed once, however often it is included
+        if !ctx.mark_indexed(include_file_id) {
+            return None;
+        }
+
         let parse = ctx.db.parse(include_file_id);
         let source_file = ast::SourceFile::cast(parse.syntax_node())?;
 
